@@ -150,7 +150,7 @@ def check_graph(s, db, case):
             bad('group.database', f'group {a.name!r}: .database is not the Database')
         if len(g.items) != len(a.items) or any(x is not tab[k] for x, k in zip(g.items, a.items)):
             bad('group.items', f'group {a.name!r}: items are not the Table objects of the database')
-        if a.note is not None and (g.note is None or g.note.parent is not g):
+        if (a.note is not None and g.note is None) or (g.note is not None and g.note.parent is not g):
             bad('note.parent.group', f'group {a.name!r}: note.parent is not the group')
     for a, n in zip(s.stickies, db.sticky_notes):
         if n.database is not db:
